@@ -20,9 +20,12 @@ def mk_duration(E, st, prefix, form="unit", fresh=False, tag="p:"):
         slots = {"_years": I("_years"), "_months": I("_months"), "_weeks": None,
                  "_days": I("_days"), "_hours": R("_hours"),
                  "_minutes": R("_minutes"), "_seconds": R("_seconds")}
-        if form == "exact":
+        if form in ("exact", "exact-whole"):
             slots["_years"] = 0
             slots["_months"] = 0
+        if form == "exact-whole":
+            for k in ("_hours", "_minutes", "_seconds"):
+                slots[k] = z3.ToReal(I(k))
     return E.new_obj(st, "Duration", slots, fresh=fresh)
 
 
@@ -35,7 +38,7 @@ def mk_timezone(E, st, prefix, fresh=False, tag="p:", unknown=False):
 
 
 def mk_timepoint(E, st, prefix, date="cal", time="hms", fresh=False, tag="p:",
-                 tz=True, ned=0, integral=True):
+                 tz=True, ned=0, integral=True, whole=False):
     """integral=True: the fields a NORMAL point of this time form keeps integral
     (hour when minutes are present, minute when seconds are present) are built
     as ToReal(<Int symbol>); use integral=False for un-normalised states."""
@@ -64,7 +67,12 @@ def mk_timepoint(E, st, prefix, date="cal", time="hms", fresh=False, tag="p:",
         slots["_minute_of_hour"] = RI("_minute_of_hour") if time == "hms" \
             else R("_minute_of_hour")
     if time == "hms":
-        slots["_second_of_minute"] = R("_second_of_minute")
+        slots["_second_of_minute"] = RI("_second_of_minute") if whole \
+            else R("_second_of_minute")
+    if whole and time == "hm":
+        slots["_minute_of_hour"] = RI("_minute_of_hour")
+    if whole and time == "h":
+        slots["_hour_of_day"] = RI("_hour_of_day")
     slots["_time_zone"] = mk_timezone(E, st, prefix + "._time_zone", fresh=fresh,
                                       tag=tag)
     return E.new_obj(st, "TimePoint", slots, fresh=fresh)
@@ -75,12 +83,30 @@ def fresh_duration(E, st, form, tag):
     return mk_duration(E, st, "%s!%d" % (tag, E.fresh_n), form, fresh=True, tag="")
 
 
-def normal_time_fields(E, slots, name):
+def _is_whole(v):
+    from pyvc.values import simp, is_z3
+    if not is_z3(v):
+        return float(v) == int(v)
+    return simp(z3.IsInt(v)) is True if z3.is_real(v) else True
+
+
+def normal_time_fields(E, slots, name, keep_whole=False):
     """Fresh symbols for the time fields of a NORMAL point with the None-ness of
-    `slots`: integral fields as ToReal(Int)."""
+    `slots`: integral fields as ToReal(Int).  keep_whole: the last time field is
+    integral too when it is (syntactically) integral in `slots` - justified by
+    _tick_over's proved clause 'whole seconds stay whole'."""
     out = {}
     has_m = slots.get("_minute_of_hour") is not None
     has_s = slots.get("_second_of_minute") is not None
+    if keep_whole:
+        last = "_second_of_minute" if has_s else "_minute_of_hour" if has_m \
+            else "_hour_of_day"
+        others = [k for k in ("_hour_of_day", "_minute_of_hour", "_second_of_minute")
+                  if slots.get(k) is not None]
+        if all(_is_whole(slots[k]) for k in others):
+            for k in others:
+                out[k] = z3.ToReal(z3.Int(name + "." + k))
+            return out
     out["_hour_of_day"] = z3.ToReal(z3.Int(name + "._hour_of_day")) if has_m \
         else z3.Real(name + "._hour_of_day")
     if has_m:
@@ -132,3 +158,22 @@ def time_kind(st, ref):
     if s.get("_minute_of_hour") is not None:
         return "hm"
     return "h"
+
+
+def mk_truncated(E, st, prefix, fields, zone_known, tag="p:"):
+    """A truncated TimePoint specifying `fields` (slot names), whole values."""
+    I = lambda n: z3.Int(tag + prefix + "." + n)
+    slots = {k: None for k in TP_SLOTS}
+    for k in getattr(E.db.class_by_name["TimePoint"].real, "__slots__", ()):
+        slots.setdefault(k, None)
+    slots["_num_expanded_year_digits"] = 0
+    slots["_truncated"] = True
+    for f in fields:
+        slots[f] = I(f)
+    slots["_time_zone"] = mk_timezone(E, st, prefix + "._time_zone", tag=tag,
+                                      unknown=not zone_known)
+    if not zone_known:
+        z = st.obj(slots["_time_zone"])
+        z.slots["_hours"] = 0
+        z.slots["_minutes"] = 0
+    return E.new_obj(st, "TimePoint", slots, fresh=False)
